@@ -190,6 +190,14 @@ func (publisher *Publisher) Places() map[string]*place {
 
 		// Get all of the unique place names.
 		for placeTag, node := range publisher.doc.Places() {
+			// The places of hidden living individuals must not be published.
+			if publisher.options.LivingVisibility == LivingVisibilityHide {
+				individual := individualForNode(publisher.doc, node)
+				if individual != nil && individual.IsLiving() {
+					continue
+				}
+			}
+
 			prettyName := prettyPlaceName(placeTag.Value())
 
 			if prettyName == "" {
